@@ -12,7 +12,8 @@ RULE = ('cases = seeded random 2-3-stack J1939-22 scenarios (1-12 messages of 61
 ASSUMPTIONS = ['replies are processed after the handler that caused them has finished (no zero-latency re-entrancy on J1939-22, as the property states)',
                'protocol PGNs are not used as application PGNs', 'PGN compared with PS cleared for PDU1']
 MIN_OBS = {'multipacket_accepted': {'quick': 3000, 'thorough': 30000}, 'deliveries_compared': {'quick': 10000, 'thorough': 100000},
-           'messages_refused': 120, 'eom_notifications': 400}
+           'messages_refused': 120, 'eom_notifications': 400,
+           'rx_thread_cases': {'quick': 80, 'thorough': 800}, 'rx_handler_holds': {'quick': 1500, 'thorough': 15000}}
 
 
 def cases(tier, seed):
